@@ -239,7 +239,7 @@ pub fn cmd_batch(a: &Args) -> i32 {
 		.get("seed")
 		.and_then(|s| s.parse().ok())
 		.or_else(|| std::env::var("VERIF_SEED").ok().and_then(|s| s.parse().ok()))
-		.unwrap_or(20261004);
+		.unwrap_or(1);
 	let jobs: usize = a.kv.get("jobs").and_then(|s| s.parse().ok()).unwrap_or(16);
 	let (def_runs, _) = crate::props::budget(&prop, thorough);
 	let runs: u64 = a.kv.get("runs").and_then(|s| s.parse().ok()).unwrap_or(def_runs);
